@@ -378,10 +378,19 @@ fn run_case(case: &Case) -> Outcome {
                 // the globals accept) leaves that filter's bit set in the thread-local state
                 let ev = evaluate(&spans, &th, cs);
                 let may_dirty = ev.globals_ok && ev.acc.iter().any(|a| !*a);
-                if may_dirty && steer {
+                // (F3 only bites an emission whose callsite interest is cached as `always`, where
+                // enabled() is skipped and the stale bits are read. A global dynamic filter layer
+                // in the stack answers `sometimes` for every callsite, so no callsite is ever
+                // cached as `always`: the probe is run and everything after it judged strictly)
+                let never_always = b.globals.iter().any(|g| matches!(g, GFilter::DynFn { .. }));
+                if may_dirty && steer && !never_always {
                     excluded += 1;
                     continue;
                 }
+                if may_dirty && never_always {
+                    classes.push("rejected_probe_or_aborted_emission_under_a_sometimes_layer".into());
+                }
+                let may_dirty = may_dirty && !never_always;
                 if may_dirty {
                     dirty_possible = true;
                 }
@@ -396,10 +405,19 @@ fn run_case(case: &Case) -> Outcome {
                 // while the globals accept it, the aborted emission may leave filter bits behind
                 let ev = evaluate(&spans, &th, cs);
                 let may_dirty = ev.globals_ok && ev.acc.iter().any(|a| !*a);
-                if may_dirty && steer {
+                // (F3 only bites an emission whose callsite interest is cached as `always`, where
+                // enabled() is skipped and the stale bits are read. A global dynamic filter layer
+                // in the stack answers `sometimes` for every callsite, so no callsite is ever
+                // cached as `always`: the probe is run and everything after it judged strictly)
+                let never_always = b.globals.iter().any(|g| matches!(g, GFilter::DynFn { .. }));
+                if may_dirty && steer && !never_always {
                     excluded += 1;
                     continue;
                 }
+                if may_dirty && never_always {
+                    classes.push("rejected_probe_or_aborted_emission_under_a_sometimes_layer".into());
+                }
+                let may_dirty = may_dirty && !never_always;
                 if may_dirty {
                     dirty_possible = true;
                 }
@@ -535,6 +553,13 @@ impl Property for C07 {
                     Op::Enter { t: 0, slot: 1 },
                     Op::Record { t: 0, slot: 1 },
                     Op::Event { t: 0, cs: b_cs },
+                    // a grandchild: walking up from it passes an accepted span before the
+                    // rejected one
+                    Op::Open { t: 0, cs: b_cs, slot: 2 },
+                    Op::Enter { t: 0, slot: 2 },
+                    Op::Event { t: 0, cs: b_cs },
+                    Op::Exit { t: 0 },
+                    Op::Close { t: 0, slot: 2 },
                     Op::Exit { t: 0 },
                     Op::Close { t: 0, slot: 1 },
                     Op::Exit { t: 0 },
